@@ -181,7 +181,10 @@ def generate(seed, run, tier):
     fault_rate = crng.choice([0.03, 0.08, 0.15]) if enabled else 0.0
     n_iters = crng.choice([0, 0, 1, 2])
     n_readers = crng.choice([0, 1, 2])
-    config = {"family": family, "alphabet": alphabet, "depth": depth, "tries": 1, "fault_class": bool(enabled)}
+    # observation schedule (swarm): see c10 — not every run sweeps everything
+    # (and iterates) right after every add
+    sweep = weighted_choice(crng, [({"iter": True, "stride": 1}, 60), ({"iter": False, "stride": 1}, 15), ({"iter": False, "stride": 3}, 15), ({"iter": True, "stride": 2}, 10)])
+    config = {"family": family, "alphabet": alphabet, "depth": depth, "tries": 1, "fault_class": bool(enabled), "sweep": sweep}
 
     def draw_host(maxdepth):
         while True:
@@ -285,6 +288,9 @@ def generate(seed, run, tier):
                 live[it] = True
             elif wrng.random() < 0.3:
                 events.append({"op": "iter_drain", "it": it, "c": it})
+                del live[it]
+            elif "iter_cancel" in enabled and frng.random() < 0.2:
+                events.append({"op": "iter_cancel", "it": it, "how": frng.choice(["close", "throw", "drop"]), "c": "F"})
                 del live[it]
             else:
                 events.append({"op": "iter_next", "it": it, "n": wrng.randint(1, 3), "c": it})
@@ -390,24 +396,35 @@ class Run(object):
         if not ok:
             self.fail("iteration", op, sorted(r(x) for x in got), expected, {"trie": t})
 
-    def sweep(self, t, op):
+    def sweep(self, t, op, force=False):
+        sw = self.cfg.get("sweep") or {}
+        stride = 1 if force else sw.get("stride", 1)
+        do_iter = force or sw.get("iter", True)
         self.sweeps += 1
         base = self.sweeps
-        plain = self.cfg.get("family") != "bundled"
+        off = base % stride
         n = 0
         for labels in self.universe:
             n += 1
+            if n % stride != off:
+                continue
             form = URL_FORMS[(n + base) % len(URL_FORMS)]
             hows = [SPELLINGS[(n + base) % len(SPELLINGS)], SPELLINGS[(n // 3 + base) % len(SPELLINGS)]]
             self.check_match(t, labels, hows, form, op)
-        self.check_len_iter(t, op)
+        if do_iter:
+            self.check_len_iter(t, op)
+        else:
+            self.stats.checks += 1
+            n_min = len(self.models[t].minimal())
+            if len(self.tries[t]) != n_min:
+                self.fail("len", op, len(self.tries[t]), n_min, {"trie": t})
         model = self.models[t]
         self.stats.state(model.text(), nontrivial=bool(model.added))
 
     def full_sweep(self, t, op):
         # three more rotations of (URL form, label spelling) over the universe
         for _ in range(3):
-            self.sweep(t, op)
+            self.sweep(t, op, force=True)
 
     def mutation_begins(self, t):
         for rec in self.iters.values():
@@ -565,6 +582,8 @@ class Run(object):
                 return
             if ev["how"] == "close":
                 rec["gen"].close()
+            elif ev["how"] == "drop":
+                rec["gen"] = None
             else:
                 try:
                     rec["gen"].throw(SimCancel())
@@ -573,7 +592,7 @@ class Run(object):
             stats.fault("iter_cancel")
             stats.probe("iter_cancelled")
             stats.event("%s|iter_cancel|%s|%d" % (ev["it"], ev["how"], len(rec["got"])))
-            self.sweep(rec["t"], "iter_cancel")
+            self.sweep(rec["t"], "iter_cancel", force=True)
         elif op == "cross_check":
             # same multiset, different schedules: identical observations
             obs = []
@@ -665,6 +684,10 @@ def shrink_config(case):
     out = []
     if cfg.get("family") == "bundled":
         return out
+    if cfg.get("sweep") not in (None, {"iter": True, "stride": 1}):
+        c = dict(cfg)
+        c["sweep"] = {"iter": True, "stride": 1}
+        out.append({"config": c, "events": case["events"]})
     if cfg.get("tries", 1) > 1:
         c = dict(cfg)
         c["tries"] = cfg["tries"] - 1
